@@ -1,5 +1,6 @@
 import logging
 import re
+from hashlib import sha256
 from io import BytesIO
 from typing import Dict, List, Mapping, Optional, Sequence, Tuple, Union, cast
 
@@ -1180,7 +1181,10 @@ class PDFPageInterpreter:
             and obj.get_any(("W", "Width")) is not None
             and obj.get_any(("H", "Height")) is not None
         ):
-            iobjid = str(id(obj))
+            # name the image after its data, so that the name (and the name of
+            # an exported file) is the same every time the document is read
+            rawdata = obj.get_rawdata() or b""
+            iobjid = "inline-" + sha256(rawdata).hexdigest()[:16]
             self.device.begin_figure(iobjid, (0, 0, 1, 1), MATRIX_IDENTITY)
             self.device.render_image(iobjid, obj)
             self.device.end_figure(iobjid)
